@@ -118,7 +118,27 @@ def serve_one_row(ctx):
     return ctx.ret(r)
 
 
-def run_layout(O, layout, K, in_kinds=("Number", "X", "Z", "C"), exp_kinds=("Number", "X", "Z"), rep=None, arbitrary_prev=False):
+def serve_rows(ctx):
+    """Model of StmtIterator::next_with_context serving the prepared rows in order, then the end of the program."""
+    st = ctx.st
+    k = st.extra["served"]
+    i = z3.simplify(k.term).as_long()
+    k.term = bv64(i + 1)
+    rows = st.extra["rows"]
+    if i < len(rows):
+        r = models.mk_enum(ctx.eng, "Result", "Ok", [models.mk_enum(ctx.eng, "Option", "Some", [copy_node(rows[i])])])
+    else:
+        none = Node(fresh_root("e"), ty="Option")
+        none.tag = bv64(0)
+        none.variants = {}
+        r = models.mk_enum(ctx.eng, "Result", "Ok", [none])
+    return ctx.ret(r)
+
+
+def run_layout(O, layout, K, in_kinds=("Number", "X", "Z", "C"), exp_kinds=("Number", "X", "Z"), rep=None, arbitrary_prev=False,
+               first_kinds=None):
+    """first_kinds: kinds ('N','X','Z','C' per column) of a source row executed BEFORE the symbolic one (its values are
+    symbolic): the expansion of the second row must not depend on what the first one was."""
     m = O.mir
     F = m.fidx
     sys.setrecursionlimit(300000)
@@ -129,7 +149,8 @@ def run_layout(O, layout, K, in_kinds=("Number", "X", "Z", "C"), exp_kinds=("Num
     eng.inline_cyclic = True
     eng.auto_inline_max_blocks = 400
     eng.auto_inline_depth = 12
-    eng.models["StmtIterator::next_with_context"] = serve_one_row
+    eng.models["StmtIterator::next_with_context"] = serve_rows if first_kinds else serve_one_row
+    offset = len(reference_expansion(list(first_kinds), layout)) if first_kinds else 0
     fn = make_harness_new(K, F("DataRowIteratorTestData", "prev") if arbitrary_prev else None)
     eng.models["StmtIterator::new"] = lambda ctx: ctx.ret(Node(fresh_root("stmtiter"), ty=ctx.dest_ty))
     n = layout.n
@@ -184,6 +205,17 @@ def run_layout(O, layout, K, in_kinds=("Number", "X", "Z", "C"), exp_kinds=("Num
                             mk_bool(z3.BoolVal(True))], "stmt::DataEntries")
         st.extra["row"] = row
         st.extra["served"] = mk_bool(z3.BoolVal(False))
+        if first_kinds:
+            LONG = {"N": "Number", "X": "X", "Z": "Z", "C": "C"}
+            fents = []
+            for c in range(n):
+                e = build.sym_enum("f%d" % c, "stmt::DataEntry")
+                st.pc.append(eng_.tag_of(e, st) == bv64(m.vidx("DataEntry", LONG[first_kinds[c]])))
+                fents.append(e)
+            frow = build.struct([build.vec_of(eng_, fents, "Vec<stmt::DataEntry>"), build.usize(LINE - 2),
+                                 mk_bool(z3.BoolVal(True))], "stmt::DataEntries")
+            st.extra["rows"] = [frow, row]
+            st.extra["served"] = build.usize(0)
 
     paths = O.explore(eng, fn, setup=setup)
     # initial-state terms
@@ -216,6 +248,8 @@ def run_layout(O, layout, K, in_kinds=("Number", "X", "Z", "C"), exp_kinds=("Num
         def scen(mod2, kinds=kinds):
             f = facts(mod2)
             own = [expansion_scenario(layout, kinds, f["values"], f["bits"], rp) for rp in (1, 2, 3)]
+            if first_kinds:
+                own = two_row_scenarios(layout, first_kinds, kinds, f["values"], f["bits"]) + own
             from .refmodel import reference_battery
             return (own + reference_battery(("expansion",))) if rep is None else (rep.battery + own)
 
@@ -230,13 +264,17 @@ def run_layout(O, layout, K, in_kinds=("Number", "X", "Z", "C"), exp_kinds=("Num
         if p.outcome != "return":
             O.fail_path(p, "row expansion %s: %s" % (p.outcome, p.detail), facts, scen, judge)
             continue
-        if len(ref) + 1 > K:
+        if offset + len(ref) + 1 > K:
             O.inconclusive("harness too short for shape %s" % "".join(kinds))
             continue
         loc = p.state.frames[0].locals
         bad = None
+        for k0 in range(offset):
+            r0 = loc[10 + k0]
+            O.prove(p, z3.And(eng.tag_of(r0, None) == bv64(0), eng.tag_of(eng.field(eng.downcast(r0, "Ok"), 0), None) == bv64(1)),
+                    "the preceding source row (%s) yields its %d rows" % ("".join(first_kinds), offset), facts, scen, judge)
         for k in range(len(ref) + 1):
-            r = loc[10 + k]
+            r = loc[10 + offset + k]
             rtag = eng.tag_of(r, None)
             opt = eng.field(eng.downcast(r, "Ok"), 0)
             otag = eng.tag_of(opt, None)
@@ -376,6 +414,22 @@ def expansion_scenario(layout, kinds, values, widths, repeat=1):
                     note="layout %s shape %s x%d" % (layout.name, "".join(kinds), repeat))
 
 
+def two_row_scenarios(layout, first_kinds, kinds, values, widths):
+    """Two consecutive source rows (first_kinds, then kinds with the model's values): literal expectations are the
+    concatenation of the two documented expansions - the second must not depend on the first."""
+    out = []
+    for fvals in ([1] * layout.n, [0] * layout.n):
+        a = expansion_scenario(layout, list(first_kinds), fvals, widths, 1)
+        b = expansion_scenario(layout, list(kinds), values, widths, 1)
+        src = a.source + b.source.split("\n", 1)[1]
+        exp = {"row_inputs": a.expect["row_inputs"] + b.expect["row_inputs"],
+               "row_expected": a.expect["row_expected"] + b.expect["row_expected"],
+               "lines": [2] * len(a.expect["lines"]) + [3] * len(b.expect["lines"])}
+        out.append(Scenario(src, a.signals, default_answer=a.default_answer, max_rows=128, expect=exp,
+                            note="layout %s: row %s then row %s" % (layout.name, "".join(first_kinds), "".join(kinds))))
+    return out
+
+
 DESC = ("get_row sequence for one source row, every combination of Number/X/Z/C entry kinds and all values/widths: rows, "
         "order (leftmost X fastest, 0 before 1), clock triples 0-1-0 with only the third checked, expected X on unchecked "
         "rows, X/Z never expanded in expected columns; layout: ")
@@ -419,7 +473,8 @@ def prev_recorded(O, rep):
     eng.inline_cyclic = True
     eng.auto_inline_max_blocks = 400
     eng.auto_inline_depth = 12
-    eng.models["StmtIterator::next_with_context"] = serve_one_row
+    eng.models["StmtIterator::next_with_context"] = serve_rows if first_kinds else serve_one_row
+    offset = len(reference_expansion(list(first_kinds), layout)) if first_kinds else 0
     eng.models["StmtIterator::new"] = lambda ctx: ctx.ret(Node(fresh_root("stmtiter"), ty=ctx.dest_ty))
     fn = make_harness_new(1)
 
@@ -440,6 +495,17 @@ def prev_recorded(O, rep):
                            "stmt::DataEntries")
         st.extra["row"] = row
         st.extra["served"] = mk_bool(z3.BoolVal(False))
+        if first_kinds:
+            LONG = {"N": "Number", "X": "X", "Z": "Z", "C": "C"}
+            fents = []
+            for c in range(n):
+                e = build.sym_enum("f%d" % c, "stmt::DataEntry")
+                st.pc.append(eng_.tag_of(e, st) == bv64(m.vidx("DataEntry", LONG[first_kinds[c]])))
+                fents.append(e)
+            frow = build.struct([build.vec_of(eng_, fents, "Vec<stmt::DataEntry>"), build.usize(LINE - 2),
+                                 mk_bool(z3.BoolVal(True))], "stmt::DataEntries")
+            st.extra["rows"] = [frow, row]
+            st.extra["served"] = build.usize(0)
     paths = O.explore(eng, fn, setup=setup)
     tag0 = z3.BitVec("e0.tag", 64)
     val0 = z3.BitVec("e0#Number.0", 64)
@@ -472,3 +538,20 @@ def rows_are_written(O):
     W = dri.WithRep(O, dri.Rep({"family": "protocol"}, B_.protocol_battery(), B_.protocol_judge))
     C02.handle_io(W)
     C02.next_core(W, None)
+
+
+@obligation("C05/expansion[after a clocked row with other clock columns]", profiles=("dev",),
+            desc=DESC + "two input columns and an expected column, executed AFTER a source row `C C n` - which columns are "
+                 "pulsed, held or enumerated is decided by the row itself, not by an earlier row")
+def _after_clocked(O):
+    # quick tier: the second row ranges over Number / X / C inputs and Number / X expected (18 shapes); Z too in thorough
+    if O.tier == "thorough":
+        run_layout(O, LAYOUTS_QUICK[0], 11, first_kinds=("C", "C", "N"))
+    else:
+        run_layout(O, LAYOUTS_QUICK[0], 11, in_kinds=("Number", "X", "C"), exp_kinds=("Number", "X"), first_kinds=("C", "C", "N"))
+
+
+@obligation("C05/expansion[after a row with X inputs]", profiles=("dev",), tier="thorough",
+            desc=DESC + "two input columns and an expected column, executed AFTER a source row `X C n`")
+def _after_x(O):
+    run_layout(O, LAYOUTS_QUICK[0], 17, first_kinds=("X", "C", "N"))
